@@ -176,7 +176,7 @@ fn one_pass(
     }
     if first {
         let lines: Vec<String> = got.iter().map(|r| r.sam_line(&names)).collect();
-        ch.obs_hash((&lines, w.containers.len(), w.n_blocks_total));
+        ch.obs_hash((&lines, w.containers.len(), w.n_blocks_total, w.methods_seen, w.version));
     }
     Ok(())
 }
